@@ -75,4 +75,5 @@ Proof.
   - intros u. rewrite HT. destruct (Nat.eqb_spec u t) as [->|Hne]; cbn [started refs mustfree excl x'].
     + discriminate.
     + apply (J8 s I u).
+  - intros _ H0. rewrite Htot in H0. pose proof (total_ge (ths s) t). unfold T, getth in *. lia.
 Qed.
